@@ -155,10 +155,26 @@ class Driver:
     def __init__(self):
         self.p = subprocess.Popen([self.BIN], stdin=subprocess.PIPE, stdout=subprocess.PIPE, text=True, bufsize=1)
         self.sent = 0
+        self.defs_sent = []
+        if not hasattr(self, "timeouts"):
+            self.timeouts = 0
+
+    TIMEOUT = 10.0   # seconds per job; a job that exceeds it is abandoned (the driver is restarted)
 
     def ask(self, line: str) -> str:
+        import select
         self.p.stdin.write(line + "\n")
         self.p.stdin.flush()
+        ready, _, _ = select.select([self.p.stdout], [], [], self.TIMEOUT)
+        if not ready:
+            self.timeouts += 1
+            d = common.SCRATCH / "c09"
+            d.mkdir(parents=True, exist_ok=True)
+            (d / ("timeout_job_%d.txt" % self.timeouts)).write_text("\n".join(self.defs_sent + [line]) + "\n")
+            self.p.kill()
+            self.p.wait()
+            self.__init__()
+            raise TimeoutError("driver job exceeded %.0fs" % self.TIMEOUT)
         out = self.p.stdout.readline()
         if not out:
             raise RuntimeError("%s died on: %s" % (self.BIN, line[:300]))
@@ -168,10 +184,12 @@ class Driver:
         for d in ex.defs[self.sent:]:
             r = self.ask(d)
             assert r == "ok", r
+            self.defs_sent.append(d)
         self.sent = len(ex.defs)
 
     def reset(self):
         self.sent = 0
+        self.defs_sent = []
 
     def close(self):
         try:
